@@ -2,7 +2,7 @@
 # confirm_seed.sh <ID> <k> : re-confirm a seeded mutant in the scratch worktree /tmp/wt_<ID>
 # (demo fails with patch, passes without; build ok). Writes /tmp/seedout_<ID>/<k>/confirm.log
 export GOFLAGS=-mod=mod GOPROXY=off GOSUMDB=off GOTOOLCHAIN=local
-ID=$1; K=$2; WT=/tmp/wt_$ID; OUT=/tmp/seedout_$ID/$K
+ID=$1; K=$2; WT=${SEED_WT:-/tmp/wt_$ID}; OUT=${SEED_OUT:-/tmp/seedout_$ID/$K}
 cd $WT || exit 2
 git checkout -q -- . ; git clean -fdq
 PKG=$(python3 -c "import json;print(json.load(open('$OUT/meta.json'))['demo_package_dir'])")
